@@ -453,6 +453,13 @@ example : obs (runFlat toyF ctxW (flatSheet.drop 2)) = .error (.err ()) ∧
 
 /-! #### why the hypotheses are there -/
 
+/-- `parse_flatten` needs a well-kinded tree: a tree that holds an end row in the place of a plain
+row is not the parse of its flat sheet (which is ill nested). -/
+theorem needs_well_kinded :
+    errOf (parseTree toyF.kind (flattenFL [FItem.row ({ kind := .endBlock } : FRaw)])) =
+      some (.wrongTerminator .endBlock .root) := by decide
+
+
 def treeOutcome (I : FIface FRaw FRow FCtx Nat Nat Unit Nat) (c : FCtx) (rows : List FRaw) :
     Res Unit (List (Nat × Nat)) :=
   (evP I c (parseAll I.kind rows)).map fun es => es.map obsEv
